@@ -541,9 +541,37 @@ def run(index, rep, tier):
         ncall = 0
         for mod in sorted(index.modules):
             for f in index.functions_in_module(mod):
+                pm16 = None
                 for c in calls_in(f.node, nested=True):
                     if call_name(c) == "label_taxon_map" and isinstance(c.func, ast.Attribute):
                         ncall += 1
+                        # used to RESOLVE labels: subscripted, .get(), `in`-tested, copied into another mapping, stored,
+                        # or bound to a name that is (a dictionary merely walked for a listing is not a look-up)
+                        pm16 = pm16 or parent_map(f.node)
+                        par = pm16.get(c)
+                        exprs = [c]
+                        if isinstance(par, ast.Assign) and par.value is c:
+                            if any(not isinstance(t, ast.Name) for t in par.targets):
+                                exprs = None        # stored on an object: a table that serves later look-ups
+                            else:
+                                names16 = {t.id for t in par.targets}
+                                exprs = [x for x in ast.walk(f.node) if isinstance(x, ast.Name) and x.id in names16 and isinstance(x.ctx, ast.Load)]
+                        resolves = exprs is None
+                        for e16 in exprs or []:
+                            q = pm16.get(e16)
+                            if isinstance(q, ast.Subscript) and q.value is e16:
+                                resolves = True
+                            elif isinstance(q, ast.Attribute) and q.attr in ("get", "pop", "setdefault", "__getitem__", "__contains__"):
+                                resolves = True
+                            elif isinstance(q, ast.Compare) and e16 in q.comparators and any(isinstance(o, (ast.In, ast.NotIn)) for o in q.ops):
+                                resolves = True
+                            elif isinstance(q, ast.Call) and e16 in q.args and call_name(q) not in ("len", "sorted", "list", "iter", "enumerate", "print", "str", "repr", "format"):
+                                resolves = True      # handed on (CaseInsensitiveDict(...), dict(...), a helper)
+                            elif isinstance(q, (ast.Return, ast.keyword)):
+                                resolves = True
+                        if not resolves:
+                            rep.ob("R10.16", fn_where(f, c), "%s: label_taxon_map() only walked, not used as a look-up table" % f.name, True, nontrivial=False)
+                            continue
                         rep.check(False, "R10.16", f.qualname, "labels resolved through label_taxon_map()", fn_where(f, c), "",
                                   "%s resolves labels through `%s`: the dictionary keeps the LAST of several members with one label (duplicates left by the 'add' import strategy, case variants in a case-insensitive namespace) and does not see members created after it was taken - this route binds a label to another member than require_taxon / get_taxon do (or creates one taxon per occurrence), so equal labels end up on different Taxon objects" % (f.qualname, norm(c)[:60]))
         ltm = index.klass(TNS).methods.get("label_taxon_map")
